@@ -65,7 +65,8 @@ LEAVES = [
     L("enum_case", {"type": "string", "enum": ["Foo", "foo", "FOO"]}, enf=True, strish=True),
     L("enum_kw", {"type": "string", "enum": ["type", "self", "Self", "ref"]}, enf=True, strish=True),
     L("enum_one", {"type": "string", "enum": ["only"]}, enf=True, strish=True),
-    L("enum_collide", {"type": "string", "enum": ["Foo_Bar", "FooBar", "Content-Type", "ContentType", "a_b", "a-b"]}, enf=True, strish=True),   # identifiers collide: fallback naming
+    L("enum_collide", {"type": "string", "enum": ["Foo_Bar", "FooBar", "Content-Type", "ContentType"]}, enf=True, strish=True),   # identifiers collide: fallback naming
+    L("enum_collide_hard", {"type": "string", "enum": ["a_b", "a-b"]}, enf=True, strish=True),   # identifiers still collide after the fallback pass
     L("enum_brace", {"type": "string", "enum": ["{x}", "a}", "{{", "%s {}"]}, enf=True, strish=True),
     L("enum_excl", {"type": "string", "enum": ["a", "bbb"], "maxLength": 2}, enf=True, strish=True),
     L("enum_mb", {"type": "string", "enum": ["éé", "abc"], "maxLength": 2}, enf=True, strish=True),
@@ -228,7 +229,7 @@ SOLO_COMPOSITES = [
     L("allof_prop_obj", {"allOf": [obj({"name": STR, "o": obj({"x": INT})}, ["name"]), obj({"o": obj({"y": STR}, ["y"])})]}),
     L("allof_prop_array", {"allOf": [obj({"name": STR, "v": {"type": "array", "items": INT}}, ["name"]), obj({"v": {"type": "array", "minItems": 1}})]}),
     # an inline object carrying BOTH its own default and property defaults served by the generic helpers (default_bool, default_u64, ..)
-    L("inline_defaults_both", obj({"retry": {"type": "object", "default": {"enabled": True, "attempts": 3},
+    L("inline_defaults_both", obj({"retry": {"type": "object", "default": {"enabled": True, "attempts": 3, "floor": -4, "nz": 2},
                                              "properties": {"enabled": {"type": "boolean", "default": True}, "attempts": {"type": "integer", "default": 3},
                                                             "floor": {"type": "integer", "default": -4}, "nz": {"type": "integer", "format": "uint32", "minimum": 1, "default": 2}}}}), enf=True),
     # scale family: containers past any plausible small-size fast path (> 16 / > 32 entries)
@@ -255,6 +256,7 @@ SOLO_COMPOSITES = [
     L("enum_untyped_obj", {"enum": [{"a": 1}, {"a": 2}]}, enf=False, sup=False),
     L("not_enum_int", {"type": "integer", "not": {"enum": [1, 2]}}, ff=False, enf=True),
     L("not_enum_negint", {"type": "integer", "not": {"enum": [-1, -2, 7]}}, ff=False, enf=True),
+    L("not_typed_negint", {"not": {"type": "integer", "enum": [-1, -2, 7]}}, ff=False, enf=False),   # the type sits inside `not`: an i64 deny list
     L("enum_negint", {"type": "integer", "enum": [-1, 0, 1]}, enf=True),
     L("not_enum_untyped_int", {"not": {"enum": [1, 2]}}, ff=False, enf=False, sup=False),
     # validation keywords next to $ref: draft-07 ignores them (so does the oracle), typify applies them: outside the faithful / enforced fragments
